@@ -586,6 +586,9 @@ MUTANTS = [
     M("L8-3-ofsuit-unfiltered", ["C05", "C12"], (RP, "                        if high_suit != kicker_suit {\n                            card_pairs.push(CardPair::new(\n                                Card::new(high, high_suit),\n                                Card::new(kicker, kicker_suit),\n                            ));\n                        }", "                        card_pairs.push(CardPair::new(\n                            Card::new(high, high_suit),\n                            Card::new(kicker, kicker_suit),\n                        ));"), base="L8-3"),
     M("benign-L3-3-advance-helper", ["C02", "C04", "C08", "C11"], base="L3-3", benign=True),
     M("L3-3-river-bound-off", ["C04"], (FE, "if (self.current_river_index as usize) < DECK_LEN - 1 {", "if (self.current_river_index as usize) < DECK_LEN - 2 {"), base="L3-3"),
+    M("benign-L6-3-lazylock-regexes", ["C05", "C06", "C09", "C10", "C17"], base="L6-3", benign=True),
+    M("L6-3-weight-above-one", ["C10", "C05"], (TK, 'r"(:(0(\\.[0-9]+)?|1(\\.0+)?))?"', 'r"(:(0(\\.[0-9]+)?|1(\\.[0-9]+)?))?"'), base="L6-3"),
+    M("L6-3-unanchored", ["C09"], (TK, 'concat!("^", $($fragment,)+ weight!(), "$")', 'concat!("", $($fragment,)+ weight!(), "$")'), base="L6-3"),
     M("benign-F3-3-computed-flush-weight", ["C01", "C07", "C08"], base="F3-3", benign=True),
     M("F3-3-unreversed", ["C01", "C07"], (MH, "1 << (12 - u8::from(card.rank()))", "1 << u8::from(card.rank())"), base="F3-3"),
     M("F3-3-off-by-one", ["C01", "C07"], (MH, "1 << (12 - u8::from(card.rank()))", "1 << (13 - u8::from(card.rank()))"), base="F3-3"),
